@@ -1,0 +1,37 @@
+//! Verification hook (cargo feature `verif-hooks`): read-only dump of the private NFA representation.
+//! Nothing here changes behaviour; with the feature off this file is not compiled.
+use super::NFA;
+
+/// One NFA state: its id, byte edges in key order, epsilon edges in set order, tag
+pub struct VerifNfaState<T> {
+    pub id: usize,
+    pub edges: Vec<(u8, usize)>,
+    pub epsilons: Vec<usize>,
+    pub tag: Option<T>,
+}
+
+/// Start, stop and all states (in id order) of an NFA
+pub struct VerifNfaDump<T> {
+    pub start: usize,
+    pub stop: usize,
+    pub states: Vec<VerifNfaState<T>>,
+}
+
+impl<T: Clone> NFA<T> {
+    pub fn verif_dump(&self) -> VerifNfaDump<T> {
+        VerifNfaDump {
+            start: self.start.0,
+            stop: self.stop.0,
+            states: self
+                .states
+                .iter()
+                .map(|(id, state)| VerifNfaState {
+                    id: id.0,
+                    edges: state.edges.iter().map(|(s, to)| (*s, to.0)).collect(),
+                    epsilons: state.epsilons.iter().map(|to| to.0).collect(),
+                    tag: state.tag.clone(),
+                })
+                .collect(),
+        }
+    }
+}
